@@ -92,6 +92,38 @@ pub struct StoreReplay {
     pub detail: String,
 }
 
+/// Harness survival guard (stated limit, DESIGN §4 C12): parameters of custom operations (iteration counts,
+/// precisions, log-bucket counts) decide how much graph their instantiation builds while the context is
+/// being rebuilt. A corrupted value such as approximation_log_buckets = 55 asks for 2^55 table entries;
+/// memory exhaustion aborts the process instead of unwinding, which would kill the check itself. Texts
+/// that still parse as JSON and carry such a parameter (> 40) inside a custom-operation body are not fed
+/// to the reader; they are counted.
+fn has_oversized_custom_parameter(text: &str) -> bool {
+    fn walk(v: &serde_json::Value, in_custom: bool) -> bool {
+        match v {
+            serde_json::Value::Number(n) => in_custom && n.as_u64().map(|x| x > 40).unwrap_or(true),
+            serde_json::Value::Array(a) => a.iter().any(|c| walk(c, in_custom)),
+            serde_json::Value::Object(o) => o.iter().any(|(k, c)| walk(c, in_custom || k == "Custom")),
+            _ => false,
+        }
+    }
+    if !text.contains("Custom") {
+        return false;
+    }
+    let outer: serde_json::Value = match serde_json::from_str(text) {
+        Ok(v) => v,
+        Err(_) => return false,
+    };
+    let inner_s = match outer.get("data").and_then(|d| d.as_str()) {
+        Some(s) => s,
+        None => return false,
+    };
+    match serde_json::from_str::<serde_json::Value>(inner_s) {
+        Ok(inner) => walk(&inner, false),
+        Err(_) => false,
+    }
+}
+
 /// Outcome of reading `bytes`: Ok(None) = property held; Ok(Some(..)) = violation (class, detail)
 pub fn read_and_check(bytes: &[u8], stats: &mut BTreeMap<String, u64>) -> Option<(String, String)> {
     let text = match std::str::from_utf8(bytes) {
@@ -101,6 +133,10 @@ pub fn read_and_check(bytes: &[u8], stats: &mut BTreeMap<String, u64>) -> Option
             String::from_utf8_lossy(bytes).to_string()
         }
     };
+    if has_oversized_custom_parameter(&text) {
+        *stats.entry("read:skipped(oversized custom-op parameter)".into()).or_insert(0) += 1;
+        return None;
+    }
     let r = guarded(|| serde_json::from_str::<Context>(&text));
     match r {
         Err(p) => Some(("deserialise-panic".into(), format!("from_str panicked: {}", p))),
@@ -221,7 +257,10 @@ pub fn write_context(rng: &mut Rng) -> Option<Written> {
             });
         }
     }
-    let stage = rng.weighted(&[3, 2, 2, 2, 3, 1]);
+    let stage = rng.weighted(&[3, 2, 2, 2, 3, 1, 2]);
+    if stage == 6 {
+        return custom_op_zoo(rng);
+    }
     match stage {
         0 => Some(Written { ctx: case.prog.build().ok()?.context, stage: "plain" }),
         1 => {
@@ -281,6 +320,98 @@ pub fn write_context(rng: &mut Rng) -> Option<Written> {
     }
 }
 
+/// A context holding (almost) every library custom operation with seeded, non-default parameters.
+/// Operations whose type check rejects the chosen arguments are skipped.
+pub fn custom_op_zoo(rng: &mut Rng) -> Option<Written> {
+    use ciphercore_base::custom_ops::{CustomOperation, Not, Or};
+    use ciphercore_base::data_types::{array_type, named_tuple_type, scalar_type, BIT, INT64};
+    use ciphercore_base::ops::adder::BinaryAdd;
+    use ciphercore_base::ops::auc::AucScore;
+    use ciphercore_base::ops::clip::Clip2K;
+    use ciphercore_base::ops::comparisons::{Equal, GreaterThan, GreaterThanEqualTo, LessThan, LessThanEqualTo, NotEqual};
+    use ciphercore_base::ops::fixed_precision::fixed_multiply::FixedMultiply;
+    use ciphercore_base::ops::fixed_precision::fixed_precision_config::FixedPrecisionConfig;
+    use ciphercore_base::ops::goldschmidt_division::GoldschmidtDivision;
+    use ciphercore_base::ops::integer_key_sort::SortByIntegerKey;
+    use ciphercore_base::ops::inverse_sqrt::InverseSqrt;
+    use ciphercore_base::ops::long_division::LongDivision;
+    use ciphercore_base::ops::min_max::{Max, Min};
+    use ciphercore_base::ops::multiplexer::Mux;
+    use ciphercore_base::ops::newton_inversion::NewtonInversion;
+    use ciphercore_base::ops::pwl::approx_exponent::ApproxExponent;
+    use ciphercore_base::ops::pwl::approx_gelu::ApproxGelu;
+    use ciphercore_base::ops::pwl::approx_gelu_derivative::ApproxGeluDerivative;
+    use ciphercore_base::ops::pwl::approx_sigmoid::ApproxSigmoid;
+    use ciphercore_base::ops::taylor_exponent::TaylorExponent;
+    let ctx = ciphercore_base::graphs::create_context().ok()?;
+    let g = ctx.create_graph().ok()?;
+    let n = 2 + rng.below(3);
+    let x = g.input(array_type(vec![n], INT64)).ok()?;
+    let y = g.input(array_type(vec![n], INT64)).ok()?;
+    let bx = g.a2b(x.clone()).ok()?;
+    let by = g.a2b(y.clone()).ok()?;
+    let sel = g.input(array_type(vec![n, 1], BIT)).ok()?;
+    let table = g.create_named_tuple(vec![("key".to_string(), x.clone()), ("v".to_string(), y.clone())]).ok()?;
+    let _ = (named_tuple_type(vec![]), scalar_type(BIT));
+    let b = |rng: &mut Rng| rng.chance(1, 2);
+    let fp = |rng: &mut Rng| FixedPrecisionConfig { fractional_bits: 3 + rng.below(20), debug: rng.chance(1, 2) };
+    let mut outs = vec![];
+    let ops: Vec<(CustomOperation, Vec<ciphercore_base::graphs::Node>)> = vec![
+        (CustomOperation::new(Not {}), vec![bx.clone()]),
+        (CustomOperation::new(Or {}), vec![bx.clone(), by.clone()]),
+        (CustomOperation::new(GreaterThan { signed_comparison: b(rng) }), vec![bx.clone(), by.clone()]),
+        (CustomOperation::new(LessThan { signed_comparison: b(rng) }), vec![bx.clone(), by.clone()]),
+        (CustomOperation::new(GreaterThanEqualTo { signed_comparison: b(rng) }), vec![bx.clone(), by.clone()]),
+        (CustomOperation::new(LessThanEqualTo { signed_comparison: b(rng) }), vec![bx.clone(), by.clone()]),
+        (CustomOperation::new(Equal {}), vec![bx.clone(), by.clone()]),
+        (CustomOperation::new(NotEqual {}), vec![bx.clone(), by.clone()]),
+        (CustomOperation::new(Min { signed_comparison: b(rng) }), vec![bx.clone(), by.clone()]),
+        (CustomOperation::new(Max { signed_comparison: b(rng) }), vec![bx.clone(), by.clone()]),
+        (CustomOperation::new(Mux {}), vec![sel.clone(), bx.clone(), by.clone()]),
+        (CustomOperation::new(Clip2K { k: rng.below(40) }), vec![bx.clone()]),
+        (CustomOperation::new(BinaryAdd { overflow_bit: b(rng) }), vec![bx.clone(), by.clone()]),
+        (CustomOperation::new(SortByIntegerKey { key: "key".into() }), vec![table.clone()]),
+        (CustomOperation::new(LongDivision { signed: b(rng) }), vec![x.clone(), y.clone()]),
+        (CustomOperation::new(NewtonInversion { iterations: 1 + rng.below(6), denominator_cap_2k: 5 + rng.below(20) }), vec![x.clone()]),
+        (CustomOperation::new(InverseSqrt { iterations: 1 + rng.below(6), denominator_cap_2k: 5 + rng.below(20) }), vec![x.clone()]),
+        (CustomOperation::new(GoldschmidtDivision { iterations: 1 + rng.below(6), denominator_cap_2k: 5 + rng.below(20) }), vec![x.clone(), y.clone()]),
+        (CustomOperation::new(TaylorExponent { taylor_terms: 2 + rng.below(6), fixed_precision_points: 4 + rng.below(12) }), vec![x.clone()]),
+        (CustomOperation::new(ApproxExponent { precision: 4 + rng.below(16) }), vec![x.clone()]),
+        (CustomOperation::new(ApproxGelu { precision: 4 + rng.below(16), approximation_log_buckets: 2 + rng.below(5) }), vec![x.clone()]),
+        (CustomOperation::new(ApproxGeluDerivative { precision: 4 + rng.below(16), approximation_log_buckets: 2 + rng.below(5) }), vec![x.clone()]),
+        (CustomOperation::new(ApproxSigmoid { precision: 4 + rng.below(16), approximation_log_buckets: 2 + rng.below(5) }), vec![x.clone()]),
+        (CustomOperation::new(FixedMultiply { config: fp(rng) }), vec![x.clone(), y.clone()]),
+        (CustomOperation::new(AucScore { fp: fp(rng) }), vec![x.clone(), y.clone()]),
+    ];
+    let mut order: Vec<usize> = (0..ops.len()).collect();
+    rng.shuffle(&mut order);
+    let keep = 3 + rng.usize_below(ops.len() - 2);
+    for i in order.into_iter().take(keep) {
+        let (op, args) = &ops[i];
+        if let Ok(Ok(nd)) = guarded(|| g.custom_op(op.clone(), args.clone())) {
+            outs.push(nd);
+        }
+    }
+    if outs.is_empty() {
+        return None;
+    }
+    let out = g.create_tuple(outs).ok()?;
+    g.set_output_node(out).ok()?;
+    g.finalize().ok()?;
+    ctx.set_main_graph(g).ok()?;
+    ctx.finalize().ok()?;
+    Some(Written { ctx, stage: "custom-op-zoo" })
+}
+
+fn has_multi_header_join(ctx: &Context) -> bool {
+    ctx.get_graphs().iter().any(|g| {
+        g.get_nodes().iter().any(|n| match n.get_operation() {
+            Operation::Join(_, h) | Operation::JoinWithColumnMasks(_, h) => h.len() > 1,
+            _ => false,
+        })
+    })
+}
+
 // --- structured corruption of the inner payload ---------------------------------------------
 
 fn count_nodes(v: &serde_json::Value) -> usize {
@@ -291,8 +422,22 @@ fn count_nodes(v: &serde_json::Value) -> usize {
     }
 }
 
-fn mutate_nth(v: &mut serde_json::Value, n: &mut usize, rng: &mut Rng) -> bool {
+fn mutate_nth(v: &mut serde_json::Value, n: &mut usize, rng: &mut Rng, in_custom: bool) -> bool {
     if *n == 0 {
+        if in_custom && v.is_number() {
+            // parameters of custom operations (iteration counts, precisions) drive how much graph their
+            // instantiation builds: an astronomically large count exhausts memory, which aborts the process
+            // instead of unwinding. Only small replacements are injected there (stated limit, DESIGN §4 C12).
+            let cur = v.as_u64().unwrap_or(0);
+            // (e.g. approximation_log_buckets = 40 means 2^40 table entries)
+            *v = serde_json::json!(match rng.below(4) {
+                0 => 0,
+                1 => cur.wrapping_add(1) % 12,
+                2 => cur.saturating_sub(1).min(12),
+                _ => rng.below(12),
+            });
+            return true;
+        }
         mutate_here(v, rng);
         return true;
     }
@@ -300,15 +445,15 @@ fn mutate_nth(v: &mut serde_json::Value, n: &mut usize, rng: &mut Rng) -> bool {
     match v {
         serde_json::Value::Array(a) => {
             for c in a.iter_mut() {
-                if mutate_nth(c, n, rng) {
+                if mutate_nth(c, n, rng, in_custom) {
                     return true;
                 }
             }
             false
         }
         serde_json::Value::Object(o) => {
-            for (_, c) in o.iter_mut() {
-                if mutate_nth(c, n, rng) {
+            for (k, c) in o.iter_mut() {
+                if mutate_nth(c, n, rng, in_custom || k == "Custom") {
                     return true;
                 }
             }
@@ -518,7 +663,7 @@ pub fn structured_fault(text: &str, rng: &mut Rng) -> Option<(Fault, String)> {
             for _ in 0..k {
                 let total = count_nodes(&inner);
                 let mut n = rng.usize_below(total);
-                mutate_nth(&mut inner, &mut n, rng);
+                mutate_nth(&mut inner, &mut n, rng, false);
             }
             outer["data"] = serde_json::json!(inner.to_string());
             Some((Fault::Structured(outer.to_string()), "tree-mutation".into()))
@@ -546,6 +691,9 @@ pub fn store_case(args: &Args, idx: usize, faults_per_case: usize, exhaustive_li
         }
     };
     *out.counts.entry(format!("stage:{}", w.stage)).or_insert(0) += 1;
+    if std::env::var("VERIF_TRACE").is_ok() {
+        eprintln!("TRACE case {} stage {}", idx, w.stage);
+    }
     let mk = |class: &str, detail: String, text: &str, fault: Option<Fault>| StoreReplay {
         property: "C12".into(),
         engine: "storesim".into(),
@@ -593,10 +741,15 @@ pub fn store_case(args: &Args, idx: usize, faults_per_case: usize, exhaustive_li
         out.violation = Some(mk("roundtrip-ill-formed", e, &s1, None));
         return out;
     }
+    // the serialised text is canonical: the reloaded (deep-equal) context serialises to the same text. The only
+    // exception is a Join whose header map (a std HashMap inside the operation) has several entries.
     if serde_json::to_string(&ctx2).map(|s| s == s1).unwrap_or(false) {
         *out.counts.entry("probe:roundtrip-text-identical".into()).or_insert(0) += 1;
+    } else if has_multi_header_join(&w.ctx) {
+        *out.counts.entry("probe:roundtrip-text-differs(join-header-map-order)".into()).or_insert(0) += 1;
     } else {
-        *out.counts.entry("probe:roundtrip-text-differs(hash-map-order)".into()).or_insert(0) += 1;
+        out.violation = Some(mk("roundtrip-text-differs", "a deep-equal reloaded context serialises to a different text: the serialised form is not canonical".into(), &s1, None));
+        return out;
     }
     // evaluates identically
     if let Some(ins) = main_input_values(&w.ctx, &mut rng) {
@@ -637,9 +790,18 @@ pub fn store_case(args: &Args, idx: usize, faults_per_case: usize, exhaustive_li
         if corrupted == bytes {
             return false;
         }
+        if std::env::var("VERIF_TRACE").is_ok() {
+            let _ = std::fs::write("/tmp/last_fault.json", serde_json::to_string(&(idx, &tag, &f)).unwrap_or_default());
+            let _ = std::fs::write("/tmp/last_text.txt", &corrupted);
+        }
         out.reads += 1;
         *out.counts.entry(format!("fault:{}", tag)).or_insert(0) += 1;
         if let Some((class, detail)) = read_and_check(&corrupted, &mut out.counts) {
+            if std::env::var("VERIF_COLLECT").is_ok() {
+                let key: String = detail.chars().take(160).collect();
+                *out.counts.entry(format!("COLLECT:{}:{}", class, key)).or_insert(0) += 1;
+                return false;
+            }
             out.violation = Some(mk(&class, detail, &s1, Some(f)));
             return true;
         }
